@@ -90,15 +90,19 @@ class Agg:
         self.max_inflight = max(self.max_inflight, o.max_inflight)
 
 
-def _children(points, start, budget_left, dev):
+def _children(points, start, budget_left, dev, free=()):
+    """Alternatives after position `start`. A deviation at a point whose kind is in
+    `free` costs nothing (those points are explored exhaustively)."""
     out = []
-    if budget_left <= 0:
-        return out
     base = [(p[1], p[0], p[2]) for p in points]
     for i in range(start, len(points)):
         n = points[i][0]
+        kind = points[i][2]
+        cost = 0 if kind in free else 1
+        if cost > budget_left:
+            continue
         for alt in range(1, n):
-            out.append((base[:i] + [(alt, n, points[i][2])], budget_left - 1, dev + 1))
+            out.append((base[:i] + [(alt, n, kind)], budget_left - cost, dev + cost))
     return out
 
 
@@ -113,7 +117,7 @@ def _subtree(args):
         agg.add(r, prefix, dev)
         if r.get('err') == 'diverged':
             continue
-        stack.extend(_children(r['points'], len(prefix), budget, dev))
+        stack.extend(_children(r['points'], len(prefix), budget, dev, params.get('_free', ())))
     return agg
 
 
@@ -126,7 +130,7 @@ def _root(args):
         ([tuple(p) for p in r1['points']] == [tuple(p) for p in r2['points']])
     agg = Agg()
     agg.add(r1, [], 0)
-    kids = _children(r1['points'], 0, bound, 0)
+    kids = _children(r1['points'], 0, bound, 0, params.get('_free', ()))
     # replay determinism on a deviating prefix as well
     if kids:
         k = kids[len(kids) // 2]
